@@ -204,6 +204,12 @@ def rule_r3(prog, rep, units, om, rid='R3'):
                     for t in origins(rd, n.id, rhs):
                         if t.startswith(FRESH_TAGS):
                             continue
+                        if t.startswith('call:'):
+                            # a helper that returns a fresh copy (`dup_value()`): same fixpoint as for returned pointers
+                            m = re.match(r'call:(\w+)@(\d+)', t)
+                            cn = m.group(1) if m else None
+                            if cn and _call_is_fresh(prog, f, cn, int(m.group(2)), good, flagged, assume, om):
+                                continue
                         bad.append((x.get('_line'), '%s = %s [%s]' % (canon(lhs), canon(rhs)[:40], t)))
         return bad
 
